@@ -78,8 +78,8 @@ def c01_accepts_dense(kind: int, bits: B8, starts: int, finals: int,
                       w: Tuple[int, int], wlen: int) -> bool:
     """
     pre: pinned(kind=kind, starts=starts, finals=finals, b0=bits[0], b1=bits[1])
-    pre: 0 <= kind < 3 and 0 <= starts < 4 and 0 <= finals < 4 and 0 <= wlen <= 2
-    pre: 0 <= w[0] < (3 if kind == 0 else 2) and 0 <= w[1] < (3 if kind == 0 else 2)
+    pre: ((0 <= kind) & (kind < 3)) & ((0 <= starts) & (starts < 4)) & ((0 <= finals) & (finals < 4)) & ((0 <= wlen) & (wlen <= 2))
+    pre: ((0 <= w[0]) & (w[0] < (3 if kind == 0 else 2))) & ((0 <= w[1]) & (w[1] < (3 if kind == 0 else 2)))
     pre: (wlen > 1 or w[1] == 0) and (wlen > 0 or w[0] == 0)
     post: _
     """
@@ -98,11 +98,11 @@ def c01_accepts_sparse(kind: int, n: int, k: int, t: T12, m: int, starts: int, f
                        w: Tuple[int, int, int], wlen: int) -> bool:
     """
     pre: pinned(kind=kind, n=n, k=k, m=m, starts=starts, wlen=wlen, t0=t[0], t1=t[1])
-    pre: 0 <= kind < 3 and 2 <= n <= 3 and 1 <= k <= 2 and 0 <= m <= 4
-    pre: 0 <= starts < (4 if n == 2 else 8) and 0 <= finals < (4 if n == 2 else 8) and 0 <= wlen <= 3
-    pre: all(0 <= t[3 * i] < n and 0 <= t[3 * i + 1] <= k and 0 <= t[3 * i + 2] < n for i in range(4))
+    pre: ((0 <= kind) & (kind < 3)) & ((2 <= n) & (n <= 3)) & ((1 <= k) & (k <= 2)) & ((0 <= m) & (m <= 4))
+    pre: ((0 <= starts) & (starts < (4 if n == 2 else 8))) & ((0 <= finals) & (finals < (4 if n == 2 else 8))) & ((0 <= wlen) & (wlen <= 3))
+    pre: enc.sparse_ranges(t, n, k)
     pre: sparse_canonical(t, m)
-    pre: all(0 <= w[i] < k + 2 + (1 if kind == 0 else 0) and (i < wlen or w[i] == 0) for i in range(3))
+    pre: enc.word_ranges(w, wlen, k + 2 + (1 if kind == 0 else 0))
     post: _
     """
     nn = enc.pick(n, 4)
@@ -186,7 +186,7 @@ def _structural(cond, raw, kd, n, k, edges, st, fi, labels=None, order=None):
 def c01_structural_dense(kind: int, bits: B8, starts: int, finals: int) -> bool:
     """
     pre: pinned(kind=kind, starts=starts, finals=finals, b0=bits[0], b1=bits[1], b2=bits[2])
-    pre: 0 <= kind < 3 and 0 <= starts < 4 and 0 <= finals < 4
+    pre: ((0 <= kind) & (kind < 3)) & ((0 <= starts) & (starts < 4)) & ((0 <= finals) & (finals < 4))
     post: _
     """
     edges = enc.decode_enfa_dense(bits, 2, 1)
@@ -200,9 +200,9 @@ def c01_structural_sparse(kind: int, n: int, k: int, t: T12, m: int, starts: int
                           perm: int) -> bool:
     """
     pre: pinned(kind=kind, n=n, k=k, m=m, starts=starts, perm=perm, t0=t[0], t1=t[1])
-    pre: 0 <= kind < 3 and 2 <= n <= 3 and 1 <= k <= 2 and 0 <= m <= 4
-    pre: 0 <= starts < (4 if n == 2 else 8) and 0 <= finals < (4 if n == 2 else 8) and 0 <= perm < 6
-    pre: all(0 <= t[3 * i] < n and 0 <= t[3 * i + 1] <= k and 0 <= t[3 * i + 2] < n for i in range(4))
+    pre: ((0 <= kind) & (kind < 3)) & ((2 <= n) & (n <= 3)) & ((1 <= k) & (k <= 2)) & ((0 <= m) & (m <= 4))
+    pre: ((0 <= starts) & (starts < (4 if n == 2 else 8))) & ((0 <= finals) & (finals < (4 if n == 2 else 8))) & ((0 <= perm) & (perm < 6))
+    pre: enc.sparse_ranges(t, n, k)
     pre: sparse_canonical(t, m)
     pre: m >= 2 or perm == 0
     post: _
@@ -241,8 +241,8 @@ NAME_SHAPES = [
 def c01_names(l0: int, l1: int, l2: int, shape: int, starts: int, finals: int) -> bool:
     """
     pre: pinned(l0=l0, l1=l1, starts=starts)
-    pre: 0 <= l0 < 9 and 0 <= l1 < 9 and 0 <= l2 < 9 and l0 != l1 and l1 != l2 and l0 != l2
-    pre: 0 <= shape < 8 and 1 <= starts < 8 and 1 <= finals < 8
+    pre: ((0 <= l0) & (l0 < 9)) & ((0 <= l1) & (l1 < 9)) & ((0 <= l2) & (l2 < 9)) & (l0 != l1) & (l1 != l2) & (l0 != l2)
+    pre: ((0 <= shape) & (shape < 8)) & ((1 <= starts) & (starts < 8)) & ((1 <= finals) & (finals < 8))
     post: _
     """
     i0, i1, i2 = enc.pick(l0, 9), enc.pick(l1, 9), enc.pick(l2, 9)
